@@ -52,6 +52,8 @@ where
             if se2.point != inter && other2.point != inter {
                 divide_segment(se2, inter, queue);
             }
+            #[cfg(feature = "verif-hooks")]
+            crate::verif_hooks::point_intersection_found();
             1
         }
         LineIntersection::Overlap(_, _) if se1.is_subject == se2.is_subject => 0, // The line segments associated to se1 and se2 overlap
@@ -92,9 +94,13 @@ where
                 if left_coincide && !right_coincide {
                     divide_segment(&events[1].1, events[0].0.point, queue)
                 }
+                #[cfg(feature = "verif-hooks")]
+                crate::verif_hooks::path(3);
                 return 2;
             }
 
+            #[cfg(feature = "verif-hooks")]
+            crate::verif_hooks::path(4);
             if right_coincide {
                 // the line segments share the right endpoint
                 divide_segment(&events[0].0, events[1].0.point, queue);
